@@ -219,7 +219,7 @@ impl Property for C08 {
     }
     fn cases(&self, tier: Tier) -> u32 {
         if tier.thorough() {
-            600_000
+            2_000_000
         } else {
             40_000
         }
